@@ -171,7 +171,9 @@ Print Assumptions pitzer_G_GP_functions.
    - ETHETA (unsymmetrical mixing): consistent for ANY function thetaE whose derivative at I is the reported ethetap; that the
      numerical J-function code (ETHETAS / ETHETA_PARAMS) produces such a pair is NOT proved.
    - LAMBDA / MU: consistent when the data-dependent factors satisfy ln_coef[0] = ln_coef[1] (= ln_coef[2]) = c and
-     os_coef = c/2 (LAMBDA) resp. c (MU); that pitzer_tidy sets them so for distinct species is NOT proved.
+     os_coef = c/2 (LAMBDA) resp. c (MU); that pitzer_tidy sets them so is proved below (pitzer_lambda_mu_weights_consistent) for
+     LAMBDA (different species and self-interaction) and for MU among three different species; MU with repeated species
+     (weights 1/3/3) is NOT proved.
    - the pressure-dependent variants F1, F2 of the Debye-Hueckel term (patm > 1) are not covered. *)
 Theorem pitzer_etheta_lambda_mu_consistent_partial :
   (forall (thetaE : R -> R) (ethetap I : R), is_derive thetaE I ethetap -> forall m0 m1,
@@ -186,6 +188,33 @@ Theorem pitzer_etheta_lambda_mu_consistent_partial :
     consistent3 (fun a b w => c * a * b * w * mu) m0 m1 m2 (evalR env pz_MU_g0) (evalR env pz_MU_g1) (evalR env pz_MU_g2) (evalR env pz_MU_os)).
 Proof. exact (conj pz_ETHETA_consistent (conj pz_LAMBDA_consistent pz_MU_consistent)). Qed.
 Print Assumptions pitzer_etheta_lambda_mu_consistent_partial.
+
+(* LAMBDA / MU with the weights pitzer_tidy actually assigns (tidy_* regenerated from Phreeqc::pitzer_tidy; kq e = evalR (env_of []) e):
+   unconditional for LAMBDA between two different species (neutral-ion, neutral-neutral'), for the LAMBDA self-interaction (i0 = i1:
+   both increments land on the same species) and for MU among three different species; plus the guards of those assignments and the
+   fact that exactly these six statements assign weights in a TYPE_LAMBDA context. *)
+Theorem pitzer_lambda_mu_weights_consistent :
+  (forall la m0 m1,
+    let env := env_of [m0; m1; la; kq tidy_LA_ln0_dist; kq tidy_LA_ln1_dist; kq tidy_LA_os_dist] in
+    consistent2 (fun a b => 2 * a * b * la) m0 m1 (evalR env pz_LA_g0) (evalR env pz_LA_g1) (evalR env pz_LA_os)) /\
+  (forall la m,
+    let env := env_of [m; m; la; kq tidy_LA_ln0_self; kq tidy_LA_ln1_self; kq tidy_LA_os_self] in
+    is_derive (fun x => la * x * x) m (evalR env pz_LA_g0 + evalR env pz_LA_g1) /\
+    2 * evalR env pz_LA_os = m * (evalR env pz_LA_g0 + evalR env pz_LA_g1) - la * m * m) /\
+  (forall mu m0 m1 m2 l0 l1 l2 os,
+    In l0 [kq tidy_MU_ln_ion_dist; kq tidy_MU_ln_neutral_dist] -> In l1 [kq tidy_MU_ln_ion_dist; kq tidy_MU_ln_neutral_dist] ->
+    In l2 [kq tidy_MU_ln_ion_dist; kq tidy_MU_ln_neutral_dist] -> In os [kq tidy_MU_os_dist; kq tidy_MU_os_dist_nnn] ->
+    let env := env_of [m0; m1; m2; mu; l0; l1; l2; os] in
+    consistent3 (fun a b w => 6 * a * b * w * mu) m0 m1 m2 (evalR env pz_MU_g0) (evalR env pz_MU_g1) (evalR env pz_MU_g2) (evalR env pz_MU_os)) /\
+  (tidy_LA_os_self_conds = ["pitz_params[i]->type == TYPE_LAMBDA"; "i0 == i1"] /\
+   tidy_LA_ln0_self_conds = tidy_LA_os_self_conds /\ tidy_LA_ln1_self_conds = tidy_LA_os_self_conds /\
+   tidy_LA_os_dist_conds = ["pitz_params[i]->type == TYPE_LAMBDA"; "!(i0 == i1)"] /\
+   tidy_LA_ln0_dist_conds = tidy_LA_os_dist_conds /\ tidy_LA_ln1_dist_conds = tidy_LA_os_dist_conds /\
+   tidy_LAMBDA_assignments = 6%nat).
+Proof.
+  exact (conj pz_LAMBDA_tidy_distinct_consistent (conj pz_LAMBDA_tidy_self_consistent (conj pz_MU_tidy_distinct_consistent pz_tidy_tables))).
+Qed.
+Print Assumptions pitzer_lambda_mu_weights_consistent.
 
 (* --- SIT sums (sit_* regenerated from Phreeqc::sit; log10 units, (phi-1) sum m = ln 10 * OSMOT) --- *)
 Theorem sit_terms_thermodynamically_consistent :
